@@ -501,3 +501,16 @@ def run(ck, prog):
     _run_pre_progress(ck, prog)
     from sa import progress
     progress.run_rule(ck, prog, set(DIMENSION_FILES))
+
+
+_run_pre_eqrefl = run
+
+
+def run(ck, prog):
+    _run_pre_eqrefl(ck, prog)
+    # 'two forests fitted with the same data, parameters and seed are identical': equality of trees and forests is reflexive
+    from props import C19
+    C19.eq_reflexive(ck, prog, files=set(DIMENSION_FILES), floor=0)
+
+
+EXPLANATION += (" Equality of trees and forests is reflexive (C19's tolerance rule restricted to this property's files).")
